@@ -443,4 +443,96 @@ theorem C11_error_local (tb : Tables) (fs : FS) (t : Task) (pr : List (Path × N
   refine ⟨rfl, ?_⟩
   rw [hl]; rfl
 
+/-! ## the scratch tarball: calls do not disturb each other -/
+
+theorem C11_tar_scratch_unique : Gen.tarScratchUnique = true := by decide
+
+theorem find_filter_other (d : Scratch) (p q : Nat × Nat) (h : p ≠ q) :
+    List.find? (fun e => decide (e.1 = q)) (List.filter (fun e => decide (e.1 ≠ p)) d)
+      = List.find? (fun e => decide (e.1 = q)) d := by
+  induction d with
+  | nil => rfl
+  | cons e es ih =>
+    by_cases he : e.1 = p
+    · have hq : ¬ e.1 = q := fun h2 => h (he ▸ h2)
+      rw [List.filter_cons, if_neg (by simp [he]), List.find?_cons, ih]
+      simp [hq]
+    · rw [List.filter_cons, if_pos (by simp [he]), List.find?_cons, List.find?_cons, ih]
+
+theorem find_filter_same (d : Scratch) (p : Nat × Nat) :
+    List.find? (fun e => decide (e.1 = p)) (List.filter (fun e => decide (e.1 ≠ p)) d) = none := by
+  rw [List.find?_eq_none]
+  intro e he
+  simp only [List.mem_filter] at he
+  simpa using he.2
+
+theorem scratchGet_step_other (d : Scratch) (p q : Nat × Nat) (op : TarOp) (h : p ≠ q) :
+    scratchGet (tarStep d p op).1 q = scratchGet d q := by
+  cases op with
+  | pack m =>
+    simp only [tarStep, scratchGet]
+    rw [List.find?_cons, find_filter_other d p q h]
+    simp [h]
+  | ship => rfl
+  | remove =>
+    simp only [tarStep, scratchGet]
+    rw [find_filter_other d p q h]
+
+/-- **every call ships what it packed itself**: for any number of concurrent `_handle_task` calls - of
+    any sessions, on tasks whose uids may coincide - and any interleaving of their pack / ship / remove
+    steps, what one call ships is what it would ship if it ran alone.  Holds because the scratch file is
+    named by the operating system per call (`C11_tar_scratch_unique`, read from the source). -/
+theorem C11_tar_calls_isolated (d d' : Scratch) (l : List (Nat × Nat × TarOp)) (c : Nat)
+    (hd : ∀ u, scratchGet d (scratchOf Gen.tarScratchUnique c u) = scratchGet d' (scratchOf Gen.tarScratchUnique c u)) :
+    (tarRun Gen.tarScratchUnique d l).filter (fun r => r.1 = c)
+      = tarRun Gen.tarScratchUnique d' (l.filter (fun x => x.1 = c)) := by
+  rw [C11_tar_scratch_unique] at hd ⊢
+  induction l generalizing d d' with
+  | nil => rfl
+  | cons x rest ih =>
+    obtain ⟨c1, u1, op⟩ := x
+    by_cases hc : c1 = c
+    · subst hc
+      have hstep : ∀ u, scratchGet (tarStep d (scratchOf true c1 u1) op).1 (scratchOf true c1 u)
+                      = scratchGet (tarStep d' (scratchOf true c1 u1) op).1 (scratchOf true c1 u) := by
+        intro u
+        have hp : scratchOf true c1 u = scratchOf true c1 u1 := by simp [scratchOf]
+        rw [hp]
+        cases op with
+        | pack m => simp [tarStep, scratchGet]
+        | ship => simpa [tarStep] using hd u1
+        | remove =>
+          simp only [tarStep, scratchGet]
+          rw [find_filter_same, find_filter_same]
+      simp only [List.filter_cons, decide_true, if_true, tarRun]
+      cases op with
+      | ship =>
+        simp only [tarStep]
+        rw [List.filter_cons]
+        simp only [decide_true, if_true]
+        rw [hd u1, ih d d' hd]
+      | pack m => simpa [tarStep] using ih _ _ (by simpa [tarStep] using hstep)
+      | remove => simpa [tarStep] using ih _ _ (by simpa [tarStep] using hstep)
+    · have hne : ∀ u, scratchOf true c1 u1 ≠ scratchOf true c u := by
+        intro u h; simp [scratchOf] at h; exact hc h
+      have hd2 : ∀ u, scratchGet (tarStep d (scratchOf true c1 u1) op).1 (scratchOf true c u) = scratchGet d' (scratchOf true c u) := by
+        intro u; rw [scratchGet_step_other _ _ _ _ (hne u)]; exact hd u
+      simp only [List.filter_cons, hc, decide_false, Bool.false_eq_true, if_false, tarRun]
+      cases hs : tarStep d (scratchOf true c1 u1) op with
+      | mk dd r =>
+        have hd3 : ∀ u, scratchGet dd (scratchOf true c u) = scratchGet d' (scratchOf true c u) := by
+          intro u; have := hd2 u; rw [hs] at this; exact this
+        cases r with
+        | none => simpa using ih dd d' hd3
+        | some v =>
+          simp only [List.filter_cons, hc, decide_false, Bool.false_eq_true, if_false]
+          exact ih dd d' hd3
+
+/-- the naming matters (test): two sessions, the same task uid 0, names computed from the uid - the first
+    call ships the members of the second, the second finds no file -/
+example : tarRun false [] [(1, 0, .pack 11), (2, 0, .pack 22), (1, 0, .ship), (1, 0, .remove), (2, 0, .ship)]
+    = [(1, some 22), (2, none)] := by decide
+example : tarRun true [] [(1, 0, .pack 11), (2, 0, .pack 22), (1, 0, .ship), (1, 0, .remove), (2, 0, .ship)]
+    = [(1, some 11), (2, some 22)] := by decide
+
 end RPVerif.C11
